@@ -708,6 +708,37 @@ func PrePassShape(p *load.Prog, r *oblig.Report, rule string) *PrePass {
 	} else {
 		r.Bad(rule, "prepass:full-line-comment", pos(back), fmt.Sprintf("the test that recognises full-line comments (first non-space byte is '#') does not decide between the blanked and the kept alternatives (blanks on it: %v, kept alternatives exclude it: %v)", blanked, kept))
 	}
+	// each line is cleaned on its own: a truth value or a text carried from one iteration of the line loop to the next
+	// (a "we are inside a … block" flag) makes the fate of a line depend on the lines before it
+	carried := ""
+	for _, in := range hdr.Instrs {
+		ph, ok := in.(*ssa.Phi)
+		if !ok {
+			break
+		}
+		if b, ok := ph.Type().Underlying().(*types.Basic); ok && (b.Info()&types.IsBoolean != 0 || b.Info()&types.IsString != 0) {
+			loopCarried := false
+			for i, e := range ph.Edges {
+				if i < len(hdr.Preds) && dominatedBy(hdr, hdr.Preds[i]) {
+					if _, isConst := e.(*ssa.Const); !isConst || true {
+						loopCarried = loopCarried || e != ssa.Value(ph)
+					}
+				}
+			}
+			if loopCarried && ph.Referrers() != nil && len(*ph.Referrers()) > 0 {
+				name := ph.Comment
+				if name == "" {
+					name = ph.Name()
+				}
+				carried = name
+			}
+		}
+	}
+	if carried != "" {
+		r.Bad(rule, "prepass:stateless", pos(back), "the variable "+carried+" is carried from one line to the next and read in the loop: what the pre-pass does to a line depends on the lines before it, whereas comments are recognised per line (first non-space byte '#', or the first \" #\")")
+	} else {
+		r.OK(rule, "prepass:stateless", pos(back), "ssa", "no truth value or text is carried from one iteration of the line loop to the next")
+	}
 	if pp.CommentCut != " #" {
 		r.Bad(rule, "prepass:inline-comment-cut", pos(back), fmt.Sprintf("the inline comment is cut at %q, the DSL comment marker is \" #\"", pp.CommentCut))
 	} else {
